@@ -166,6 +166,51 @@ def width(t):
     raise ValueError(t)
 
 
+def structure(t):
+    """Simplicity structure of a type as documented in book/src/type_casting.md:
+    ('1',) unit, ('+', l, r) sum, ('*', l, r) product"""
+    k = t[0]
+    if k == "bool":
+        return ("+", ("1",), ("1",))
+    if k == "u":
+        if t[1] == 1:
+            return ("+", ("1",), ("1",))
+        h = structure(U(t[1] // 2))
+        return ("*", h, h)
+    if k == "option":
+        return ("+", ("1",), structure(t[1]))
+    if k == "either":
+        return ("+", structure(t[1]), structure(t[2]))
+    if k == "tuple" or k == "array":
+        parts = [structure(x) for x in t[1]] if k == "tuple" else [structure(t[1])] * t[2]
+
+        def balanced(ps):
+            n = len(ps)
+            if n == 0:
+                return ("1",)
+            if n == 1:
+                return ps[0]
+            right = 1
+            while right * 2 < n:
+                right *= 2
+            # the right part holds the largest power of two strictly below n elements
+            return ("*", balanced(ps[: n - right]), balanced(ps[n - right:]))
+
+        return balanced(parts)
+    if k == "list":
+        e, b = t[1], t[2]
+        if b == 2:
+            return structure(OPT(e))
+        return ("*", structure(OPT(ARR(e, b // 2))), structure(LIST(e, b // 2)))
+    raise ValueError(t)
+
+
+def structure_from_json(j):
+    if j == "1":
+        return ("1",)
+    return (j[0], structure_from_json(j[1]), structure_from_json(j[2]))
+
+
 def list_block_sizes(bound):
     s = bound // 2
     out = []
@@ -410,8 +455,18 @@ class Node:
 
 
 class Lit(Node):
-    def __init__(self, ty, v, fmt="dec"):
-        self.ty, self.v, self.fmt = ty, v, fmt
+    def __init__(self, ty, v, fmt="dec", text=None):
+        """text: the literal exactly as it is to be written (underscores, leading zeros); v is its value"""
+        self.ty, self.v, self.fmt, self.text = ty, v, fmt, text
+
+
+class HexBytes(Node):
+    """hex literal at a byte-array type [u8; n]"""
+
+    def __init__(self, data, text=None):
+        self.data = bytes(data)
+        self.ty = ARR(U(8), len(self.data))
+        self.text = text
 
 
 class BoolLit(Node):
@@ -612,6 +667,8 @@ class Printer:
         return ty_str(t, self.al)
 
     def lit(self, e):
+        if e.text is not None:
+            return e.text
         n = e.ty[1]
         if e.fmt == "hex":
             return "0x%0*x" % (n // 4, e.v)
@@ -661,6 +718,8 @@ class Printer:
     def expr(self, e, ind=0):
         if isinstance(e, Lit):
             return self.lit(e)
+        if isinstance(e, HexBytes):
+            return e.text if e.text is not None else "0x" + e.data.hex()
         if isinstance(e, BoolLit):
             return "true" if e.v else "false"
         if isinstance(e, Wit):
@@ -835,6 +894,8 @@ class Spec:
         self.steps += 1
         if isinstance(e, Lit):
             return T.const(e.ty[1], e.v), T.false()
+        if isinstance(e, HexBytes):
+            return tuple(T.const(8, b) for b in e.data), T.false()
         if isinstance(e, BoolLit):
             return (T.true() if e.v else T.false()), T.false()
         if isinstance(e, Wit):
@@ -1024,7 +1085,7 @@ def tracked_calls(prog):
     def walk(e):
         if e is None:
             return
-        if isinstance(e, (Lit, BoolLit, Wit, Param, Var, NoneE)):
+        if isinstance(e, (Lit, HexBytes, BoolLit, Wit, Param, Var, NoneE)):
             return
         if isinstance(e, Paren):
             return walk(e.e)
